@@ -173,10 +173,43 @@ def h_wcs_mutation(m):
     m.require('after changing the WCS in place the radius follows the new scale', _close_rel(second.radius, r / (3600 * w.s)))
 
 
+def h_real_wcs_executed(m):
+    """EXECUTED with a real astropy.wcs.WCS (no symbolic input; supplementary to the solver-decided cases, which use an affine stub):
+    on a high-latitude tangent-plane WCS with coarse, rotated pixels, far from the reference pixel, the pixel ellipse has the size
+    and orientation given by the LOCAL scale and the LOCAL north direction at the region centre (measured independently with a
+    1-arcsec step along the meridian)"""
+    import math
+    from astropy.coordinates import SkyCoord
+    from astropy.wcs import WCS
+    from regions import EllipseSkyRegion
+    for (lat0, dlon, dlat, rot) in ((80.0, 12.0, -1.5, 20.0), (-75.0, -9.0, 2.0, -35.0), (5.0, 1.0, 1.0, 0.0)):
+        w = WCS(naxis=2)
+        w.wcs.ctype = ['RA---TAN', 'DEC--TAN']
+        w.wcs.crval = [40.0, lat0]
+        w.wcs.crpix = [300.0, 300.0]
+        w.wcs.cdelt = [-0.01, 0.01]
+        c_, s_ = math.cos(math.radians(rot)), math.sin(math.radians(rot))
+        w.wcs.pc = [[c_, -s_], [s_, c_]]
+        centre = SkyCoord(40.0 + dlon, lat0 + dlat, unit='deg', frame='icrs')
+        sky = EllipseSkyRegion(centre, 30 * u.arcsec, 12 * u.arcsec, angle=25 * u.deg)
+        pix = sky.to_pixel(w)
+        x0, y0 = w.world_to_pixel(centre)
+        north = centre.directional_offset_by(0 * u.deg, 1 * u.arcsec)
+        x1, y1 = w.world_to_pixel(north)
+        step = math.hypot(x1 - x0, y1 - y0)                  # pixels per arcsec along the meridian
+        north_angle = math.degrees(math.atan2(y1 - y0, x1 - x0))
+        ang = float(pix.angle.to_value(u.deg))
+        want = north_angle - 90.0 + 25.0
+        diff = (ang - want + 180.0) % 360.0 - 180.0
+        m.require(f'real WCS (lat {lat0}): centre is the pixel position of the sky centre', abs(pix.center.x - x0) < 1e-6 and abs(pix.center.y - y0) < 1e-6)
+        m.require(f'real WCS (lat {lat0}): orientation follows the local north at the region centre', abs(diff) < 1e-3)
+        m.require(f'real WCS (lat {lat0}): sizes follow the local scale', abs(pix.width / (30 * step) - 1) < 1e-4 and abs(pix.height / (12 * step) - 1) < 1e-4)
+
+
 def harnesses(tier):
     P = functools.partial
     q = tier == 'quick'
-    hs = []
+    hs = [('real-wcs/high-latitude-off-centre (executed)', h_real_wcs_executed)]
     centres = [(10.0, 20.0), (10.003, 19.998)] if q else [(10.0, 20.0), (10.003, 19.998), (9.99, 20.01)]
     for kind in ('circle', 'ellipse', 'rectangle', 'annulus-circle', 'annulus-ellipse', 'annulus-rectangle'):
         for parity in (-1, 1):
@@ -203,7 +236,7 @@ META = {
     'bounds': {'quick': {'WCS': 'affine (tangent-plane) WCS: any scale s > 0, any rotation (unit-circle atom), both parities, any reference pixel',
                          'sizes / sky angle': 'unbounded positive reals / any angle', 'sky centres': '2 concrete centres near the reference point'},
                'thorough': {'size units': ['arcsec', 'arcmin', 'deg'], 'sky centres': 3}},
-    'outside_claim': ['to_sky of ellipses/rectangles is covered by composition: C06 proves to_sky inverts to_pixel for every local scale/orientation, C07 proves to_pixel absolute (a direct to_sky obligation for ellipses made z3 time out)', 'boundary-point obligations (0.999/1.001 of the semi-axis) only for circles; for ellipses/rectangles they follow from size + orientation + C01', 'curvature of the sphere over the 1-arcsec probe, non-conformal or distorted WCSs, |lat| limits, other celestial frames: the '
+    'outside_claim': ['real astropy.wcs.WCS objects are used only by ONE EXECUTED case (real-wcs/high-latitude-off-centre: three concrete TAN WCSs, an execution of the real library, not a solver verdict)', 'to_sky of ellipses/rectangles is covered by composition: C06 proves to_sky inverts to_pixel for every local scale/orientation, C07 proves to_pixel absolute (a direct to_sky obligation for ellipses made z3 time out)', 'boundary-point obligations (0.999/1.001 of the semi-axis) only for circles; for ellipses/rectangles they follow from size + orientation + C01', 'curvature of the sphere over the 1-arcsec probe, non-conformal or distorted WCSs, |lat| limits, other celestial frames: the '
                       'stub is the linearisation of an undistorted celestial WCS at the reference point',
                       'the probe offset of astropy (0.000277777777775 deg instead of 1/3600) makes sizes agree to 1e-11 relative; obligations use 1e-9'],
     'stubs': ['AffineWCS (vf/wcsstub.py): pixel = P0 + (1/s) R(rho) diag(parity,1) ((lon-lon0)cos(lat0), lat-lat0); real SkyCoord centres; '
